@@ -53,8 +53,8 @@ Definition compare_to_latest (current latest : bytes) : compare_result :=
           | Gt => Newer
           | Eq => match ct, lt with
                   | Some a, Some b => of_cmp (bcmp a b)
-                  | None, Some _ => Outdated
-                  | Some _, None => Newer
+                  | None, Some _ => Newer
+                  | Some _, None => Outdated
                   | None, None => Latest
                   end
           end
